@@ -391,6 +391,7 @@ func (g *FnGen) expandGhostNames(name string) []string {
 			}
 		}
 		sort.Strings(out)
+		sort.Strings(out)
 		return out
 	}
 	return []string{name}
